@@ -1,9 +1,9 @@
 """Registry entry for C01."""
 
 PROP = dict(
-    module="JadeModel.Props.C01", ns="Jade.C01",
+    module="JadeModel.Props.C03All", ns="Jade.C01",
     required=["C01_batch_ids_nodup", "C01_job_in_at_most_one_batch", "C01_batches_containing_le_one",
-              "C01_shared_job_same_batch", "C01_started_at_most_once", "C01_started_in_its_batch", "C01_single_holder"],
+              "C01_shared_job_same_batch", "C01_started_at_most_once", "C01_started_in_its_batch", "C01_single_holder", "C01_complete_accounting"],
     suites=["system", "batch"],
     level_text="Machine-checked invariants of the system model Jade.Sys (processes, files, virtual SLURM) by induction over "
                "ALL sequences of boundary events - every schedule of submitter rounds on any nodes, batch starts and job "
@@ -13,8 +13,9 @@ PROP = dict(
                "used by the proof is what C07 proves of the batching algorithm.",
     level_note="Trusted: Lean kernel (+3 standard axioms), harness/vcluster.py (process boundary fakes, event log), the event "
                "translation, atomicity of one boundary event (lock sections; lockset recorded with every file mutation). "
-               "The terminal clause (complete fault-free run: every job in exactly one batch or canceled without running) is "
-               "checked by the direct oracle on real runs and stated in Props/C03-C05; resubmission is C13.",
+               "The terminal clause (complete fault-free run: every job in exactly one batch and started once, or canceled "
+               "without running) is C01_complete_accounting, proved for fault-free runs runP (Props/C03All.lean, from the "
+               "completeness and uniqueness invariants of C03) and also checked by the direct oracle; resubmission is C13.",
     assumptions=["one boundary event = one atomic step (inside one lock section or one syscall-level action)",
                  "job names unique", "SLURM gives each accepted sbatch a fresh id and starts each batch at most once"],
     explanation="System-level proof (Model/System.lean, Proofs/System.lean, Proofs/SystemNode.lean) + history-replay "
